@@ -89,7 +89,7 @@ func zz5RefCounterBody(p *CounterPack1, o *zz5COpt) zz5Secs {
 	s.add("thread", d(p.ThreadTotalStarted), d32(p.ThreadCount), d32(p.ThreadDaemon), d32(p.ThreadPeakCount))
 	s.add("db-num", zz5Or0(o.dbnum))
 	if n := p.Netstat; n != nil {
-		s.add("netstat", []byte{1}, d32(n.Est), d32(n.FinW), d32(n.TimW), d32(n.CloW))
+		s.add("netstat", []byte{1}, d32(n.Est), d32(n.FinW), d32(n.CloW), d32(n.TimW))
 	} else {
 		s.add("netstat", []byte{0})
 	}
@@ -101,7 +101,7 @@ func zz5RefCounterBody(p *CounterPack1, o *zz5COpt) zz5Secs {
 	}
 	s.add("start-host", d(p.Starttime), d(p.PackDropped), d32(p.HostIp), d32(p.MacHash))
 	s.add("extra", zz5Or0(o.extra))
-	s.add("pid-active-stat", d32(p.Pid), zz5I16s(p.ActiveStat))
+	s.add("pid-active-stat", zz5I32(p.Pid), zz5I16s(p.ActiveStat))
 	s.add("threadpool", d32(p.ThreadPoolActiveCount), d32(p.ThreadPoolQueueSize))
 	s.add("txcaller-oid-meter", zz5Or0(o.oid))
 	s.add("sql-meter", zz5Or0(o.sql))
@@ -253,7 +253,7 @@ func zz5CounterSection(p *CounterPack1, o *zz5COpt, section string) {
 	case "POidMeter":
 		n := zz5Size(2)
 		p.TxcallerPOidMeter = hmap.NewLinkedMapDefault()
-		o.poid = zz5Cat([]byte{9}, zz5Dec(int64(n)))
+		o.poid = zz5Dec(int64(n))
 		for i := 0; i < n; i++ {
 			m := new(TxMeter)
 			zz5Meter(m)
